@@ -73,6 +73,10 @@ fn oracle(c: &Case, acc: &mut Acc) -> CaseResult {
     for (k, it) in items.iter().enumerate() {
         let f = if it.r_to_i { &mut fr } else { &mut fi };
         f.verif_set_sending_nonce(it.nonce);
+        if f.sending_nonce() != it.nonce {
+            // the stateful reference could not be placed (a counter-setting problem, C09's business)
+            return Err(Fail::setup(format!("{name}: the stateful sender could not be placed at nonce {} (it reports {})", it.nonce, f.sending_nonce())));
+        }
         let m = t_write(f, &payloads[k], it.plen + 16).map_err(|x| Fail::setup(format!("{name}: stateful write at nonce {}: {}", it.nonce, e(&x))))?;
         first[k] = Some(m);
     }
@@ -176,6 +180,9 @@ fn oracle(c: &Case, acc: &mut Acc) -> CaseResult {
         for (k, it) in items.iter().enumerate() {
             let f = if it.r_to_i { &mut fr } else { &mut fi };
             f.verif_set_sending_nonce(it.nonce);
+            if f.sending_nonce() != it.nonce {
+                return Err(Fail::setup(format!("{name}: the stateful sender could not be placed at nonce {}", it.nonce)));
+            }
             let want = t_write(f, &payloads[k], it.plen + 16).map_err(|x| Fail::setup(format!("{name}: stateful write after rekey: {}", e(&x))))?;
             let (w, r) = if it.r_to_i { (&tr, &ti) } else { (&ti, &tr) };
             for round in 0..2 {
